@@ -168,7 +168,9 @@ pub fn profile(mode_kind: u8) -> Profile {
             // lattice with recovery (fixpoint members) for C20/C21
             let mut pf = Profile::base();
             pf.lattice = true;
-            pf.durs = [1, 0, 0, 0];
+            // mixed durabilities: members that read only more durable inputs than the written
+            // one are validated through the durability shortcut
+            pf.durs = [4, 1, 1, 0];
             pf.max_slots = 2;
             pf.max_nodes = 6;
             pf.max_ops = 3;
